@@ -222,6 +222,14 @@ structure St where
   /-- an `ingest` happened (observation outside the property): look-ups are echoed from then on -/
   observe : Bool := false
 
+/-- the association lists of the model stand for `unordered_map`s: compare states up to their order -/
+def sortByKey {β : Type} (l : List (Bytes × β)) : List (Bytes × β) :=
+  l.mergeSort fun a b => hexOfBytes a.1 ≤ hexOfBytes b.1
+
+def normalize (s : NodeState) : NodeState :=
+  { chunks := sortByKey s.chunks, shardTable := sortByKey s.shardTable, announced := sortByKey s.announced,
+    manifests := sortByKey s.manifests, seeds := s.seeds.mergeSort fun a b => hexOfBytes a ≤ hexOfBytes b }
+
 def idBytes (tok : String) : Bytes := (id32 tok).map UInt8.ofNat
 
 def zeros (n : Nat) : Bytes := List.replicate n 0
@@ -346,7 +354,7 @@ def step (st : St) (tok : List String) (_line : String) (impl : Option String) :
         let after := if acc then (match fetchChunk b' m.chunkId (zeros 32) with
           | .value (some p) => canon p | .value none => "miss" | _ => "throw") else "-"
         let out := s!"{if acc then "accept" else "reject"} ret={ret} dec={b01 dec} stored={b01 (find b'.chunks m.chunkId).isSome}" ++
-          s!" ann={b01 (find b'.announced m.chunkId).isSome} changed={b01 (decide (b' ≠ st.b))} fetch={after}"
+          s!" ann={b01 (find b'.announced m.chunkId).isSome} changed={b01 (decide (normalize b' ≠ normalize st.b))} fetch={after}"
         let implAcc := (impl.getD "").startsWith "accept"
         let admitted := (manifestTtl m.expiresNs wall st.cfg.minTtl st.cfg.maxTtl).isSome
         let verdict := judge impl fun i =>
